@@ -63,7 +63,9 @@ def setSeqNum (nextOut nextIn : Option Int) : M Unit := do
 
 /-- `_process_logon` (connection.py l.526-556), asserts included.  Acceptor: a Logon without
 EncryptMethod(98) or HeartBtInt(108) cannot be answered – Logout with that reason, disconnect, `return`
-(fix 29469a0; no state change to ACTIVE, no `on_logon`); otherwise the reply copies 98 and 108. -/
+(fix 29469a0; no state change to ACTIVE, no `on_logon`); otherwise the reply copies 98 and 108; when
+`send_msg` of the reply raises, `disconnect(DISCONNECTED_BROKEN_CONN)` runs and the exception is re-raised
+(fix a9dbd9f: never stay in LOGON_INITIAL_RECV). -/
 def processLogon (env : Env) (m : Msg) : M Unit := do
   M.assert (m.mtype == mLogon)
   let c ← M.get
@@ -80,7 +82,10 @@ def processLogon (env : Env) (m : Msg) : M Unit := do
         if n ≥ c.sess.nextIn then do
           let e ← M.liftE (m.get tEncryptMethod)
           let h ← M.liftE (m.get tHeartBtInt)
-          sendMsg env (Msg.mk' mLogon [(tEncryptMethod, e), (tHeartBtInt, h)])
+          -- fix a9dbd9f: a reply that cannot be sent drops the connection, then the error goes on
+          M.tryCatch (sendMsg env (Msg.mk' mLogon [(tEncryptMethod, e), (tHeartBtInt, h)])) fun ex => do
+            disconnect env st_DISCONNECTED_BROKEN_CONN none
+            M.throw ex
         else pure ()
         pure false
     else pure false
